@@ -20,6 +20,16 @@ def index {α : Type} (a : Array α) (i : Nat) : Except BuildErr α :=
 def indexSet {α : Type} (a : Array α) (i : Nat) (v : α) : Except BuildErr (Array α) :=
   if i < a.size then .ok (a.setIfInBounds i v) else .error (.panic "index out of bounds")
 
+/-- `slice[i]` (panics when out of range). -/
+def indexL {α : Type} (l : List α) (i : Nat) : Except BuildErr α :=
+  match l[i]? with
+  | some x => .ok x
+  | none => .error (.panic "index out of bounds")
+
+/-- `Vec::resize(n, v)`. -/
+def resize {α : Type} (a : Array α) (n : Nat) (v : α) : Array α :=
+  if a.size ≤ n then a ++ Array.replicate (n - a.size) v else a.extract 0 n
+
 /-- `u32::try_from(n).unwrap()` for a `usize`. -/
 def u32TryFromUnwrap (n : Nat) : Except BuildErr Nat :=
   if n ≤ u32Max then .ok n else .error (.panic "u32::try_from(..).unwrap()")
